@@ -49,7 +49,7 @@ fn runs_for(prop: &str, thorough: bool) -> u64 {
         "C16" => (2_000_000, 100_000_000),
         "C17" => (2_000_000, 100_000_000),
         "C18" => (400_000, 20_000_000),
-        "C20" => (400_000, 8_000_000),
+        "C20" => (400_000, 6_000_000),
         _ => (20_000, 200_000),
     };
     if thorough { t } else { q }
